@@ -299,12 +299,7 @@ impl<T: AsRef<str>> TailingSpacesHighlighter for T {
 }
 
 fn space_start_index(input: &str) -> usize {
-    for (i, ch) in input.chars().rev().enumerate() {
-        if !ch.is_whitespace() {
-            return input.len() - i;
-        }
-    }
-    0
+    input.trim_end().len()
 }
 
 fn render_spaces(spaces: &str) -> String {
